@@ -206,7 +206,7 @@ theorem dead_restart {s : St} {x : Nat} (h : Dead s x) : Dead s.restart x :=
 
 theorem inv_restart {s : St} (hI : Inv s) : Inv s.restart := by
   refine ⟨⟨hI.fi.edge_lt, hI.fi.edge_live, hI.fi.entry_edge, hI.fi.idsB, ?_, hI.fi.cubB, hI.fi.tixB, hI.fi.slIx⟩,
-    hI.unmarked, hI.lease, hI.acc, fun _ => rfl, fun x hx => dead_restart (hI.deadClean x hx), hI.parentLive, fun _ => rfl⟩
+    hI.unmarked, hI.lease, hI.acc, fun _ => rfl, fun x hx => dead_restart (hI.deadClean x hx), hI.parentLive, fun _ h => by cases h⟩
   intro x e h
   refine ⟨by simp [St.restart], fun h0 => ?_, fun h' => h'⟩
   show s.tl x = some false
@@ -291,5 +291,52 @@ theorem cascade_after_partial {s σ : St} (hI : Inv s) (hIσ : Inv σ) (hs : Shr
           rw [cascade_next hIσ f hF q t hq ht0] at this
           omega
     exact hI'.deadClean x hnone
+
+
+/-- `σ` is `s` except for the in-memory `tokensPendingDeletion` map -/
+structure SameButPend (s σ : St) : Prop where
+  next : σ.next = s.next
+  nextL : σ.nextL = s.nextL
+  kmax : σ.kmax = s.kmax
+  ids : σ.ids = s.ids
+  acc : σ.acc = s.acc
+  par : σ.par = s.par
+  tl : σ.tl = s.tl
+  sl : σ.sl = s.sl
+  tix : σ.tix = s.tix
+  cub : σ.cub = s.cub
+  cache : σ.cache = s.cache
+  skey : σ.skey = s.skey
+  lkey : σ.lkey = s.lkey
+
+theorem inv_sameButPend {s σ : St} (hI : Inv s) (h : SameButPend s σ) (hp : ∀ k, σ.pend k ≠ some true) : Inv σ := by
+  obtain ⟨h1, h2, h3, h4, h5, h6, h7, h8, h9, h10, h11, h12, h13⟩ := h
+  refine ⟨⟨?_, ?_, ?_, ?_, ?_, ?_, ?_, ?_⟩, ?_, ?_, ?_, ?_, ?_, ?_, hp⟩
+  · rw [h6, h1]; exact hI.fi.edge_lt
+  · rw [h6, h4]; exact hI.fi.edge_live
+  · rw [h6, h4]; exact hI.fi.entry_edge
+  · rw [h4, h1]; exact hI.fi.idsB
+  · intro x e he
+    rw [h4] at he
+    have := hI.fi.tok x e he
+    exact ⟨hp _, by rw [h11]; exact this.cache, by rw [h7, h11]; exact this.tlc⟩
+  · rw [h10, h3]; exact hI.fi.cubB
+  · rw [h9, h2]; exact hI.fi.tixB
+  · rw [h8, h9]; exact hI.fi.slIx
+  · rw [h4]; exact hI.unmarked
+  · rw [h4, h7]; exact hI.lease
+  · rw [h4, h5]; exact hI.acc
+  · rw [h11, h7]; exact hI.cacheEq
+  · intro x hx
+    rw [h4] at hx
+    have hd := hI.deadClean x hx
+    exact ⟨by rw [h4]; exact hd.noEntry, by rw [h7]; exact hd.noLease, by rw [h5]; exact hd.noAcc,
+      by rw [h10]; exact hd.noCub, by rw [h8]; exact hd.leases⟩
+  · rw [h4]; exact hI.parentLive
+
+theorem desc_sameButPend {s σ : St} (h : SameButPend s σ) {t x : Nat} (hx : Desc s t x) : Desc σ t x := by
+  induction hx with
+  | self => exact .self
+  | child _ hc hp ih => exact .child ih (by rw [h.ids]; exact hc) hp
 
 end Obao.Revoke
